@@ -61,7 +61,13 @@ func genC12(seed uint64, run int, tier string) Scenario {
 			pw := tree.ByName["pw:"+ps.Name]
 			pw.Cmds = map[string]*peer.Reply{sc.Secondary: {Next: ps.Name}}
 			par := tree.ByName[ps.Previous]
-			switch pick(r, "asks", "asks", "grants", "refuses") {
+			switch pick(r, "asks", "asks", "grants", "refuses", "rejects") {
+			case "rejects":
+				// asks for the secret and does not accept it: back to the lower prompt, every time
+				pw.Cmds = map[string]*peer.Reply{}
+				pw.Default = &peer.Reply{Out: []peer.Tok{{S: "% Bad secrets"}}, Next: par.Name}
+				pw.Empty = pw.Default
+				sc.Ex = append(sc.Ex, "rejects:"+ps.Name)
 			case "grants":
 				par.Cmds[ps.Escalate] = &peer.Reply{Next: ps.Name}
 				sc.Ex = append(sc.Ex, "grants:"+ps.Name)
